@@ -529,6 +529,15 @@ func checkC14(w *World, c *Check, tier string) {
 					c.bad("C14.fold", key, w.InstrPos(fa), fmt.Sprintf("URL.%s of an operand %s", fname, bad))
 					continue
 				}
+				if fname == "Path" || fname == "RawPath" {
+					// a path may be cleaned (dot segments, doubled slashes) and lose a trailing slash; any other rewriting
+					// (a cut set that also strips dots or leading characters, replacements) makes ids with different
+					// paths equal: /.well-known/actor and /well-known/actor
+					if how := rewritesPath(fa); how != "" {
+						c.bad("C14.fold", key, w.InstrPos(fa), fmt.Sprintf("%s passes URL.Path through %s before comparing: only path cleaning and the removal of a trailing \"/\" preserve the identity of a path", funcName(f), how))
+						continue
+					}
+				}
 				if fname == "Scheme" {
 					// the relation must not single out particular schemes: a scheme may be tested for being present and
 					// compared with the other operand's, but not with a scheme name — the insensitivities (trailing
@@ -1598,6 +1607,75 @@ func comparedWithSchemeName(fa *ssa.FieldAddr) string {
 					for _, a := range x.Common().Args {
 						if s, ok := constString(a); ok && s != "" {
 							found = s
+						}
+					}
+				}
+			}
+		}
+	}
+	visit(fa, 0)
+	return found
+}
+
+// rewritesPath: the value loaded from a URL path field flows (through cleaning and conversions) into a strings function
+// that rewrites it, other than TrimSuffix/TrimRight with the constant "/". Returns a description.
+func rewritesPath(fa *ssa.FieldAddr) string {
+	found := ""
+	seen := map[ssa.Value]bool{}
+	var visit func(v ssa.Value, d int)
+	visit = func(v ssa.Value, d int) {
+		if d > 6 || v.Referrers() == nil || found != "" || seen[v] {
+			return
+		}
+		seen[v] = true
+		for _, r := range *v.Referrers() {
+			switch x := r.(type) {
+			case *ssa.UnOp:
+				if x.Op == token.MUL {
+					visit(x, d+1)
+				}
+			case *ssa.Convert:
+				visit(x, d+1)
+			case *ssa.Phi:
+				visit(x, d+1)
+			case *ssa.Call:
+				cal := x.Common().StaticCallee()
+				if cal == nil || cal.Object() == nil || cal.Object().Pkg() == nil {
+					continue
+				}
+				if cal.Pkg == fa.Parent().Pkg && cal.Blocks != nil {
+					// a helper of the package: follow the value into the parameter it is passed as, and the result back
+					for ai, a := range x.Common().Args {
+						if a == v && ai < len(cal.Params) {
+							visit(cal.Params[ai], d+1)
+						}
+					}
+					if isStringish(x.Type()) {
+						visit(x, d+1)
+					}
+					continue
+				}
+				pkg := cal.Object().Pkg().Path()
+				switch {
+				case (pkg == "path" || pkg == "path/filepath") && cal.Name() == "Clean":
+					visit(x, d+1)
+				case pkg == "strings":
+					switch cal.Name() {
+					case "EqualFold", "Compare", "Contains", "HasPrefix", "HasSuffix", "Index", "IndexByte", "Count":
+					case "ToLower", "ToUpper":
+						visit(x, d+1)
+					case "TrimSuffix", "TrimRight":
+						if s, ok := constString(x.Common().Args[len(x.Common().Args)-1]); ok && s == "/" {
+							visit(x, d+1)
+						} else {
+							found = fmt.Sprintf("strings.%s(…, %s)", cal.Name(), shortVal(x.Common().Args[len(x.Common().Args)-1]))
+						}
+					default:
+						found = "strings." + cal.Name()
+						if len(x.Common().Args) > 1 {
+							if s, ok := constString(x.Common().Args[1]); ok {
+								found += fmt.Sprintf("(…, %q)", s)
+							}
 						}
 					}
 				}
